@@ -11,14 +11,14 @@
      outs_agree        results equal, pre-/post-order equal up to permutation *)
 From Coq Require Import ZArith List Bool Permutation.
 From FV Require Import C10.Spec C10.Model C10.Proofs C10.ProofsIns C10.ProofsDel C10.ProofsIter
-  C10.ProofsRefine C10.ProofsDrive C10.ProofsTop C10.Run C10.ProofsRun C10.ModelCmp C10.ProofsCmp.
+  C10.ProofsRefine C10.ProofsDrive C10.ProofsTop C10.Run C10.ProofsRun C10.ModelCmp C10.ProofsCmp C10.ProofsMore.
 Import ListNotations.
 Open Scope Z_scope.
 
 (* "After any sequence of insertions, replacements, removals, clears and removals through
    iterators, every query - lookup, size, first/last, floor, ceiling and higher neighbours, key
    and value listings, ascending and descending iteration, traversals - agrees with a sorted
-   map holding the same associations": for EVERY operation sequence (all 34 operations of the
+   map holding the same associations": for EVERY operation sequence (all 36 operations of the
    model - including SetValue / Equals on the live entries handed out by the accessors and by
    entry iterators - any keys, any length) the results of the tree model equal the results of the
    reference sorted association list, position by position. *)
@@ -121,6 +121,67 @@ Theorem c10_no_undefined : forall (ops : list op) slot it,
 Proof. exact reach_iter_wellformed. Qed.
 Print Assumptions c10_no_undefined.
 
+(* What must NOT change.  Reads (every query, listing, traversal, HasNext, Equals) return the
+   state they were given - tree, size field, version, every iterator; so does every operation
+   that reports a panic (no such element, concurrent modification, illegal state), and a
+   Remove / Get / Contains / Foreach-removal of an absent key. *)
+Theorem c10_reads_change_nothing : forall ms o, reads_only o = true -> fst (mstep ms o) = ms.
+Proof. exact reads_change_nothing. Qed.
+Print Assumptions c10_reads_change_nothing.
+
+Theorem c10_panics_change_nothing : forall ms o c,
+  snd (mstep ms o) = OPanic c -> fst (mstep ms o) = ms.
+Proof. exact panics_change_nothing. Qed.
+Print Assumptions c10_panics_change_nothing.
+
+Theorem c10_absent_key_changes_nothing : forall ms k, lookup k (m_tree ms) = None ->
+  mstep ms (Remove k) = (ms, OBool false) /\
+  (forall i, fst (mstep ms (ForeachRemove i k)) = ms) /\
+  mstep ms (Get k) = (ms, OVal None) /\ mstep ms (Contains k) = (ms, OBool false).
+Proof. exact absent_change_nothing. Qed.
+Print Assumptions c10_absent_key_changes_nothing.
+
+(* a replacement (Put of a present key, after any history) rewrites one value field: same
+   shape, same colours, same size, same version, iterators untouched *)
+Theorem c10_replace_keeps_shape : forall (ops : list op) k v old,
+  lookup k (m_tree (reach ops)) = Some old ->
+  fst (mstep (reach ops) (Put k v)) =
+  mk_mstate (setv k v (m_tree (reach ops))) (m_size (reach ops)) (m_ver (reach ops)) (m_its (reach ops)).
+Proof. exact reach_replace. Qed.
+Print Assumptions c10_replace_keeps_shape.
+
+(* Snapshot law over an iterator's whole life.  After ANY history ops1 create an iterator of any
+   kind in a slot, then run ANY operations ops2 that do not re-create that slot - queries,
+   replacements, its own Next/Remove, other iterators, foreign insertions/removals/Clear (after
+   which its Next only panics): the keys its successful Next calls pop ([visited]), followed by
+   what it still has pending, are exactly the keys present at creation in the iterator's
+   direction.  So nothing is visited twice, nothing is skipped, nothing that was inserted later
+   is seen.  (The reference and the tree model return the same results: c10_refines_sorted_map;
+   what a popping Next returns: c10_iter_next_output.) *)
+Theorem c10_iter_snapshot : forall (ops1 : list op) kind slot (ops2 : list op),
+  kind_ok kind = true ->
+  forallb (fun o => negb (recreates slot o)) ops2 = true ->
+  let s0 := sreach ops1 in
+  let s1 := fst (sstep s0 (IterNew kind slot)) in
+  exists it', s_its (fst (srun s1 ops2)) slot = Some it' /\
+    visited slot s1 ops2 ++ si_pending it' =
+    (if kind_asc kind then map fst (s_list s0) else rev (map fst (s_list s0))).
+Proof. exact iter_snapshot. Qed.
+Print Assumptions c10_iter_snapshot.
+
+Theorem c10_iter_next_output : forall slot s o k, popped slot s o = [k] ->
+  exists it v, s_its s slot = Some it /\ snd (sstep s o) = next_out (si_kind it) k v.
+Proof. exact popped_output. Qed.
+Print Assumptions c10_iter_next_output.
+
+(* "so every operation stays logarithmic": the nodes a search for any key compares with
+   (getEntry, Put's and deleteEntry's descent, the neighbour searches walk this path) number at
+   most 2*log2(n+1), after any history *)
+Theorem c10_search_path_logarithmic : forall (ops : list op) k,
+  Z.of_nat (path_len k (m_tree (reach ops))) <= 2 * Z.log2 (m_size (reach ops) + 1).
+Proof. exact reach_path_len. Qed.
+Print Assumptions c10_search_path_logarithmic.
+
 (* The comparator contract is "negative / zero / positive".  The key-comparing descents of
    the code, transcribed with an arbitrary comparator cmp (ModelCmp.v: Put, getEntry+deleteEntry,
    getEntry, the four neighbour searches), depend on cmp only through its sign: with ANY
@@ -182,6 +243,28 @@ Example c10_example_descending_remove :
   snd r = [OUnit; OKeys [7; 70]; OKeys [6; 60]; OUnit; OKeys [5; 50]; OKeys [4; 40]; OUnit;
            OKeys [3; 30]; OKeys [2; 20]; OUnit; OKeys [1; 10]; OBool false; OKeys [1; 3; 5; 7]].
 Proof. vm_compute. reflexivity. Qed.
+
+(* snapshot law on a non-trivial life: keys 1..7, ascending entry iterator; a query, a
+   replacement of a key still to come, the iterator's own Remove, then a foreign Remove (after
+   which Next reports the concurrent modification): visited 1 2 3, pending 4 5 6 7 *)
+Example c10_example_snapshot :
+  let s1 := fst (sstep (sreach build7) (IterNew 0 0)) in
+  let ops2 := [IterNext 0; Get 5; Put 3 99; IterNext 0; IterRemove 0; IterNext 0; Remove 7;
+               IterNext 0; IterHasNext 0] in
+  forallb (fun o => negb (recreates 0 o)) ops2 = true /\
+  visited 0 s1 ops2 = [1; 2; 3] /\
+  snd (srun s1 ops2) = [OKeys [1; 10]; OVal (Some 50); OVal (Some 30); OKeys [2; 20]; OUnit;
+                        OKeys [3; 99]; OBool true; OPanic P_ConcurrentModification; OBool true].
+Proof. vm_compute. repeat split; reflexivity. Qed.
+
+(* a replacement really keeps the shape, and a panic really keeps the state *)
+Example c10_example_replace_and_panic :
+  lookup 4 (m_tree (reach build7)) = Some 40 /\
+  m_tree (fst (mstep (reach build7) (Put 4 44))) =
+    T B (T B E 1 10 E) 2 20 (T R (T B E 3 30 E) 4 44 (T B (T R E 5 50 E) 6 60 (T R E 7 70 E))) /\
+  snd (mstep (reach (build7 ++ [IterNew 0 0])) (IterRemove 0)) = OPanic P_IllegalState /\
+  path_len 7 (m_tree (reach build7)) = 4%nat.
+Proof. vm_compute. repeat split; reflexivity. Qed.
 
 (* both comparators of the harness (-1/0/+1 and the key difference) meet the hypothesis *)
 Example c10_example_comparators :
